@@ -79,7 +79,9 @@ pub enum Op {
     /// receive until the terminal message and disconnect (or `max` messages), acking per policy
     Drain { slot: usize, max: Option<usize>, acks: Vec<AckKind>, via_consumer: bool },
     Cancel { slot: usize },
-    DropConsumer { slot: usize },
+    /// `whole`: also give up the harness's own clone of the receiver first, so that the Consumer's drop
+    /// really disconnects the queue (what an application that drops the Consumer experiences)
+    DropConsumer { slot: usize, whole: bool },
     /// mem::forget the consumer (keeps its receiver) so the channel can be closed under it
     ForgetConsumer { slot: usize },
     ListenReturns,
@@ -747,9 +749,14 @@ impl WorkerCtx {
                     None => OpResult::Skipped,
                 }
             }
-            Op::DropConsumer { slot: cs } => {
+            Op::DropConsumer { slot: cs, whole } => {
                 if *cs >= self.consumers.len() {
                     return OpResult::Skipped;
+                }
+                if *whole {
+                    let (_tx, dummy) = crossbeam_channel::unbounded();
+                    self.consumers[*cs].rx = dummy;
+                    self.consumers[*cs].kept.clear();
                 }
                 let c = self.consumers[*cs].consumer.take();
                 drop(c);
